@@ -29,7 +29,7 @@ CHECKS = {
     "C20": ("integer seconds-of-day shift model from the generated schedule file compared with driver availability, shift events and Dispatcher proposals per step, incl. drivers added between co-simulation calls", "4 C20", "held on the shift tables, start times and step lengths observed"),
 }
 
-IMPLEMENTED = sys.argv[1].split(",") if len(sys.argv) > 1 else []
+IMPLEMENTED = sys.argv[1].replace(" ", ",").split(",") if len(sys.argv) == 2 else (sys.argv[1:] if len(sys.argv) > 2 else ["C%02d" % i for i in range(1, 21)])
 
 m = {
     "version": 1,
@@ -45,7 +45,7 @@ m = {
         {"name": "hivemon", "path": "hivemon/", "serves_properties": sorted(IMPLEMENTED), "kind_free_text": "runtime monitoring: seeded scenario generator + hostile/systematic drivers running the real hive pipeline under harness-side hooks; per-property monitors (invariants, ledgers, reference models, differential executions)"}
     ],
     "checks": [],
-    "notes": "See DESIGN.md. Verdicts are three-valued: exit 0 held-on-observed, exit 1 VIOLATION, exit 2 INCONCLUSIVE (coverage floor missed or worker problem). 14 genuine defects were repaired in /repo as fix: commits (known_findings.json 'fixed' records).",
+    "notes": "See DESIGN.md. Verdicts are three-valued: exit 0 held-on-observed, exit 1 VIOLATION, exit 2 INCONCLUSIVE (coverage floor missed or worker problem). 18 genuine defects were repaired in /repo as fix: commits (known_findings.json 'fixed' records).",
     "not_applicable": [],
 }
 for pid in sorted(CHECKS):
